@@ -495,8 +495,12 @@ def groupselectmin(table, key, value, presorted=False, buffersize=None,
     `value` field within each group. N.B., will only return one row for each
     group, even if multiple rows have the same (minimum) value."""
 
-    return groupselectfirst(sort(table, value, reverse=False), key,
-                            presorted=presorted, buffersize=buffersize,
+    # N.B., sorting by value destroys any ordering by key, so the table
+    # always has to be (stably) re-sorted by key, whatever `presorted` says
+    return groupselectfirst(sort(table, value, reverse=False,
+                                 buffersize=buffersize, tempdir=tempdir,
+                                 cache=cache),
+                            key, presorted=False, buffersize=buffersize,
                             tempdir=tempdir, cache=cache)
 
 
@@ -509,8 +513,12 @@ def groupselectmax(table, key, value, presorted=False, buffersize=None,
     `value` field within each group. N.B., will only return one row for each
     group, even if multiple rows have the same (maximum) value."""
 
-    return groupselectfirst(sort(table, value, reverse=True), key,
-                            presorted=presorted, buffersize=buffersize,
+    # N.B., sorting by value destroys any ordering by key, so the table
+    # always has to be (stably) re-sorted by key, whatever `presorted` says
+    return groupselectfirst(sort(table, value, reverse=True,
+                                 buffersize=buffersize, tempdir=tempdir,
+                                 cache=cache),
+                            key, presorted=False, buffersize=buffersize,
                             tempdir=tempdir, cache=cache)
 
 
